@@ -42,6 +42,28 @@ func fmtCallsDeep(f *ssa.Function, sy *symb, site *ssa.Call, depth int) []*fmtCa
 				continue
 			}
 			qn := qname(callee)
+			// w.WriteString(fmt.Sprintf(format, args...)) and w.WriteString("const") are Fprintf / Fprint on w
+			if (callee.Name() == "WriteString" && callee.Signature.Recv() != nil && len(call.Call.Args) == 2 && isWriterType(call.Call.Args[0].Type())) || (qn == "io.WriteString" && len(call.Call.Args) == 2) {
+				top := site
+				if top == nil {
+					top = call
+				}
+				arg := call.Call.Args[1]
+				if sp, ok := arg.(*ssa.Call); ok && fnIs(sp.Call.StaticCallee(), "fmt", "Sprintf") && len(*sp.Referrers()) == 1 {
+					fc := &fmtCall{site: top, sy: sy, call: call, fn: "Fprintf", w: call.Call.Args[0], fmtVal: sp.Call.Args[0]}
+					if k := constVal(sp.Call.Args[0]); k != nil && k.Kind() == constant.String {
+						s := constant.StringVal(k)
+						fc.format = &s
+					}
+					fc.args = orderedVarargs(sp.Call.Args[1:])
+					out = append(out, fc)
+					continue
+				}
+				if k := constVal(arg); k != nil && k.Kind() == constant.String {
+					out = append(out, &fmtCall{site: top, sy: sy, call: call, fn: "Fprint", w: call.Call.Args[0], args: []ssa.Value{arg}})
+					continue
+				}
+			}
 			if qn != "fmt.Fprintf" && qn != "fmt.Fprint" && qn != "fmt.Fprintln" {
 				// a module helper that receives an io.Writer: look inside
 				if depth < 2 && callee.Blocks != nil && callee.Pkg == f.Pkg && callee != f {
@@ -49,6 +71,9 @@ func fmtCallsDeep(f *ssa.Function, sy *symb, site *ssa.Call, depth int) []*fmtCa
 					for _, a := range call.Call.Args {
 						if n, ok := a.Type().(*types.Named); ok && n.Obj().Pkg() != nil && n.Obj().Pkg().Path() == "io" && n.Obj().Name() == "Writer" {
 							passesWriter = true
+						}
+						if isWriterType(a.Type()) {
+							passesWriter = true // *strings.Builder, *bytes.Buffer, …
 						}
 					}
 					if passesWriter {
@@ -397,4 +422,24 @@ func rulesNumWidth(c *Ctx, r *Report, rels ...string) {
 		})
 	}
 	r.Extra["num_width_sites"] = n
+}
+
+// isWriterType: the (pointer) type has a method Write([]byte) (int, error).
+func isWriterType(t types.Type) bool {
+	ms := types.NewMethodSet(t)
+	for i := 0; i < ms.Len(); i++ {
+		m := ms.At(i).Obj()
+		if m.Name() != "Write" {
+			continue
+		}
+		sig, ok := m.Type().(*types.Signature)
+		if ok && sig.Params().Len() == 1 && sig.Results().Len() == 2 {
+			if sl, ok := sig.Params().At(0).Type().(*types.Slice); ok {
+				if b, ok := sl.Elem().(*types.Basic); ok && b.Kind() == types.Byte {
+					return true
+				}
+			}
+		}
+	}
+	return false
 }
